@@ -85,6 +85,9 @@ func (ls *layouts) of(t types.Type) *Layout {
 		case u.Kind() == types.UnsafePointer:
 			l.Sort = SAddr
 			l.IsPtr = true
+		case u.Kind() == types.Invalid:
+			// unused component of a range/next tuple: a dummy boolean
+			l.Sort = SBool
 		case u.Kind() == types.UntypedNil:
 			l.Sort = SAddr
 			l.IsPtr = true
